@@ -146,10 +146,28 @@ def judge(ctx, text, case, original=False):
     os.environ['GNUPGHOME'] = h.dir
     env = SystemGPGEnvironment()
     m = ManifestFile()
+    reused = False
+    if case.get('reuse') and not original:
+        # history on one ManifestFile object: a genuinely signed Manifest was loaded
+        # into it before (load() may be called again after a failure)
+        try:
+            m.load(io.StringIO(case['reuse']), verify_openpgp=True, openpgp_env=env)
+            reused = m.openpgp_signed
+        except GematoException:
+            m = ManifestFile()
     try:
         m.load(io.StringIO(text), verify_openpgp=True, openpgp_env=env)
     except GematoException as exc:
         ctx.count('gpg:rejected')
+        if reused:
+            ctx.count('gpg:rejected-on-reused-object')
+            if m.openpgp_signed or m.openpgp_signature is not None:
+                ctx.violation('signed-state-after-failed-load', 'a ManifestFile that '
+                              'held a verified Manifest still reports openpgp_signed=%r '
+                              '/ signature data after loading a rejected text into it '
+                              '(%d entries held)' % (m.openpgp_signed, len(m.entries)),
+                              case)
+                return
         if original:
             ctx.violation('rejects-genuine:' + type(exc).__name__,
                           'a Manifest genuinely signed by gpg is rejected: %s' % exc,
@@ -221,6 +239,8 @@ def run(u, ctx):
             judge(ctx, signed, case, original=valid)
         op, text = mutate(rng, signed, signed2)
         case = {'kind': 'gpgtext', 'text': text, 'op': op}
+        if j % 3 == 1 and valid:
+            case['reuse'] = signed
         ctx.case(sig=('gpg', op), case=case, nontrivial=(text != signed),
                  klass='gpg-' + op)
         judge(ctx, text, case)
@@ -229,6 +249,83 @@ def run(u, ctx):
 
 def replay(case, ctx):
     judge(ctx, case['text'], case, original=(case.get('op') == 'original'))
+
+
+def run_resign(u, ctx):
+    """A tree whose signed top-level Manifest was tampered with is updated with
+    signing requested (`gemato update --sign`, or a loader with sign_openpgp=True and
+    everything else left to its default): the forged text must be rejected, not
+    taken over and signed again with the maintainer's key."""
+    import logging
+    from gemato.exceptions import GematoException
+    from gemato.recursiveloader import ManifestRecursiveLoader
+    h = home()
+    rng = common.rng_for(ctx.seed, 'C04', 'resign', u['i'])
+    da, db = rng.randbytes(20), rng.randbytes(30)
+    body = mtext.render([mtext.file_entry('DATA', 'a', da, ['SHA256']),
+                         mtext.file_entry('DATA', 'b', db, ['SHA256'])])
+    signed = h.clearsign(body)
+    how = ['inject-ignore', 'change-digest', 'drop-line'][u['i'] % 3]
+    lines = signed.split('\n')
+    k = lines.index('') + 1         # first line of the signed text
+    if how == 'inject-ignore':
+        lines.insert(k, 'IGNORE b')
+    elif how == 'change-digest':
+        lines[k] = lines[k][:-1] + ('0' if lines[k][-1] != '0' else '1')
+    else:
+        del lines[k + 1]
+    forged = '\n'.join(lines)
+    api = ['cli', 'lib'][(u['i'] // 3) % 2]
+    case = {'kind': 'resign', 'how': how, 'api': api, 'i': u['i']}
+    ctx.case(sig=('resign', how, api), case=case, klass='gpg-resign')
+    ctx.count('gpg:resign_cases')
+    logging.getLogger().setLevel(logging.CRITICAL)
+    with common.Scratch('vf-c04s-') as d:
+        root = os.path.join(d, 't')
+        os.makedirs(root)
+        for nm, data in (('a', da), ('b', db if how != 'change-digest' else db)):
+            with open(os.path.join(root, nm), 'wb') as f:
+                f.write(data)
+        with open(os.path.join(root, 'b'), 'wb') as f:
+            f.write(b'replaced payload')
+        top = os.path.join(root, 'Manifest')
+        with open(top, 'w') as f:
+            f.write(forged)
+        os.environ['GNUPGHOME'] = h.dir
+        try:
+            if api == 'cli':
+                from gemato import cli as gcli
+                try:
+                    rc = gcli.main(['gemato', 'update', '--hashes', 'SHA256', '--sign',
+                                    '--openpgp-id', keys.KEY_ID, root])
+                except SystemExit as exc:
+                    rc = exc.code
+                accepted = rc == 0
+            else:
+                try:
+                    from gemato.openpgp import SystemGPGEnvironment
+                    m = ManifestRecursiveLoader(top, sign_openpgp=True,
+                                                openpgp_keyid=keys.KEY_ID,
+                                                openpgp_env=SystemGPGEnvironment(),
+                                                hashes=['SHA256'])
+                    m.update_entries_for_directory('')
+                    m.save_manifests()
+                    accepted = True
+                except GematoException:
+                    accepted = False
+        except Exception as exc:
+            ctx.violation('gpg-load-raises:' + adapt.exc_key(exc), 'update --sign on a '
+                          'forged signed Manifest raised %r' % (exc,), case)
+            return
+        finally:
+            os.environ.pop('GNUPGHOME', None)
+        with open(top) as f:
+            now = f.read()
+        if accepted or now != forged:
+            ctx.violation('forged-manifest-resigned', 'a signed top-level Manifest with a '
+                          'tampered cleartext (%s) was accepted by an update with signing '
+                          'requested (%s)%s' % (how, api, '; the Manifest was rewritten'
+                                                if now != forged else ''), case)
 
 
 def run_reload(u, ctx):
